@@ -62,6 +62,10 @@ def payload(p, i, big):
     return BIG if big else 'v%s.%s' % (p, i)
 
 
+class GetInterrupted(Exception):
+    """What a signal handler raised while a blocking read was waiting."""
+
+
 class Unpicklable:
     """An object the feeder thread cannot serialise."""
 
@@ -299,12 +303,26 @@ def _consumer(env, c, q, op, kind, rbuf):
 
     def body():
         out = []
+        first = [op == 'ix']
+        if first[0]:
+            # a plain blocking get() whose read is interrupted by a signal
+            # handler that raises (PEP 475: only a read that is waiting can
+            # be interrupted): tried once an item has been accepted
+            sched.point('h:wait-first-put', None, lambda: env.nput_ok >= 1)
+            real = q._recv_bytes
+
+            def interrupted(*a, **kw):
+                if first[0] and not rbuf.data:
+                    first[0] = False
+                    raise GetInterrupted('signal handler raised in read()')
+                return real(*a, **kw)
+            q._recv_bytes = interrupted
         while env.tickets > 0:
             env.tickets -= 1
             while True:
                 env.ev('get_call', c, op, bool(rbuf.data))
                 try:
-                    if op == 'get':
+                    if op in ('get', 'ix'):
                         v = q.get()
                     elif op == 'to':
                         v = q.get(timeout=TO)
@@ -312,6 +330,9 @@ def _consumer(env, c, q, op, kind, rbuf):
                         v = q.get(False)
                     else:
                         v = q.get_nowait()
+                except GetInterrupted:
+                    env.ev('get_aborted', c, op)
+                    continue
                 except Empty:
                     env.ev('get_empty', c, op)
                     if op in ('nb', 'nw'):
@@ -370,7 +391,7 @@ def _oracle(env, status):
     expected = sorted((p, i, 'ok') for p, (_, n, _) in enumerate(cfg['prods'])
                       for i in range(n) if cfg.get('bad', {}).get(p) != i)
     puts = _attempts(log, 'put_call', ('put_ok', 'put_full', 'put_bad'))
-    gets = _attempts(log, 'get_call', ('get_ok', 'get_empty'))
+    gets = _attempts(log, 'get_call', ('get_ok', 'get_empty', 'get_aborted'))
     got = [e[2] for e in log if e[0] == 'get_ok']
     # -- values unchanged, nothing duplicated, nothing invented
     for g in got:
@@ -630,6 +651,12 @@ def base_configs(tier):
             cons=['get'], orig='p0', bad={0: 1})
         add(kind='queue', maxsize=maxsize, prods=[_P('put', 2), _P('put', 1)],
             cons=['get', 'get'], orig=None, bad={0: 0})
+    # ---- Queue: a blocking get interrupted while it waits (nothing is
+    # taken, so no place may be given back)
+    for maxsize in (1, 2):
+        for pop in ('put', 'nb'):
+            add(kind='queue', maxsize=maxsize, prods=[_P(pop, maxsize + 1)],
+                cons=['ix'], orig='p0')
     # the creating process consumes instead
     for maxsize in (0, 1):
         add(kind='queue', maxsize=maxsize, prods=[_P('put', 2)],
